@@ -54,7 +54,7 @@ func goldenProfile() *Profile {
 		Property: "C18", MaxOps: 14,
 		// only what the pinned release handles without tripping over its known defects:
 		// no reopen (index precision), no Or queries (index corruption), no queries at all
-		W: map[string]int{"insert": 10, "upsertUUID": 1, "update": 5, "resave": 1, "delete": 3, "many": 2, "bulk": 1, "resurrect": 1},
+		W:          map[string]int{"insert": 10, "upsertUUID": 1, "update": 5, "resave": 1, "delete": 3, "many": 2, "bulk": 1, "resurrect": 1},
 		AllowAsync: true, AllowCache: true, AllowCompress: true, AllowLower: true,
 		MinIndexed: 1, MaxIndexed: 5, MaxUnique: 2, CasePaths: 1,
 		TinyBias: 35, BigBias: 30, HookBias: 5, RichShape: 40, MaxLeaves: 1,
